@@ -2,9 +2,13 @@ module verif/checker
 
 go 1.26.8
 
-require golang.org/x/tools v0.50.0
+require (
+	golang.org/x/crypto v0.39.0
+	golang.org/x/tools v0.50.0
+)
 
 require (
 	golang.org/x/mod v0.41.0 // indirect
 	golang.org/x/sync v0.23.0 // indirect
+	golang.org/x/sys v0.48.0 // indirect
 )
